@@ -56,7 +56,7 @@ Theorem seen_is_gen_component_when_distinct cat e name nsid ids labs parent :
 Proof.
   intros Hf Ht Hwf Hd.
   destruct (gen_component_spec cat e name nsid ids labs parent Hf Ht Hwf) as [c [Hc Hs]].
-  unfold gen_component_seen. rewrite Hc. unfold sel_ports. rewrite Hf.
+  unfold gen_component_seen, gen_component_seen_with. rewrite Hc. unfold sel_ports. rewrite Hf.
   destruct labs as [l|]; [|reflexivity].
   destruct (e_ifs e) as [ports|] eqn:Ei; [|reflexivity].
   destruct stamps_caller_labels; [|reflexivity]. f_equal.
@@ -77,10 +77,39 @@ Proof.
   simpl. rewrite Hbdf, <- Hloc. apply set_local_same.
 Qed.
 
-(* one label object handed to both ports of a two-port entry: the first port shows the second port's local_name *)
-Theorem shared_label_refuted :
+(* the code attaches a COPY of each caller-supplied Labels object (flag read from the source by the translator) *)
+Lemma labels_are_copied : stamps_caller_labels = false.
+Proof. vm_cast_no_check (eq_refl false). Qed.
+
+Lemma seen_with_false cat name s nsid ids labs parent :
+  gen_component_seen_with false cat name s nsid ids labs parent = gen_component cat name s nsid ids labs parent.
+Proof.
+  unfold gen_component_seen_with. destruct (gen_component cat name s nsid ids labs parent) as [c|c]; [|reflexivity].
+  destruct labs as [l|]; [|reflexivity]. destruct (sel_ports cat s); reflexivity.
+Qed.
+
+Lemma after_with_false cat name s nsid ids labs parent :
+  caller_labels_after_with false cat name s nsid ids labs parent
+  = match labs with Some l => map (fun _ => None) l | None => [] end.
+Proof.
+  unfold caller_labels_after_with. destruct labs as [l|]; [|reflexivity]. destruct (sel_ports cat s); reflexivity.
+Qed.
+
+(* for ALL arguments, shared label objects included: what the caller sees is gen_component's result and none of the
+   label objects it handed over is modified *)
+Theorem caller_sees_gen_component : forall cat name s nsid ids labs parent,
+  gen_component_seen cat name s nsid ids labs parent = gen_component cat name s nsid ids labs parent /\
+  caller_labels_after cat name s nsid ids labs parent = match labs with Some l => map (fun _ => None) l | None => [] end.
+Proof.
+  intros. unfold gen_component_seen, caller_labels_after. rewrite labels_are_copied.
+  split; [apply seen_with_false|apply after_with_false].
+Qed.
+
+(* why the copy matters: if the caller's object were attached as is, one object handed to both ports of a two-port
+   entry would make the first port show the second port's local_name *)
+Theorem stamping_would_alias :
   let e : comp_entry := (S"M", [], S"SmartNIC", S"d", Some [(S"p1", 100); (S"p2", 100)]) in
   let lb := {| lab_bdf := BNone; lab_tag := 0%N |} in
-  exists c ns i, gen_component_seen [e] (S"n1") (ByTypeModel (Some (S"SmartNIC")) (Some (S"M"))) None None (Some [lb; lb]) None = Ok c /\
+  exists c ns i, gen_component_seen_with true [e] (S"n1") (ByTypeModel (Some (S"SmartNIC")) (Some (S"M"))) None None (Some [lb; lb]) None = Ok c /\
     c_ns c = Some ns /\ nth_error (ns_ifs ns) 0 = Some i /\ if_name i = S"n1-p1" /\ if_local i = LStr (S"p2").
 Proof. vm_compute. do 3 eexists. repeat split. Qed.
